@@ -85,6 +85,9 @@ def enc_tie(d, lines, tag="enc"):
 
 
 # ----------------------------------------------------------------------------- (P) programs
+PROPOSAL_TIMEOUT_MS = "3600000"
+
+
 def run_mode(d, mode, progtext, tag, timeout=900):
     prog = d / (tag + ".prog")
     out = d / ("%s.%s.trace" % (tag, mode))
@@ -96,7 +99,7 @@ def run_mode(d, mode, progtext, tag, timeout=900):
     # time-out error in cluster mode (open finding blocking-pop-vs-proposal-timeout); waiting is free
     # under the virtual clock, the harness gives every step 60 s
     rc, log = lib.sh("%s c14run %s %s %s %s" % (lib.BUILD / HB, mode, prog, out, d), cwd=d, timeout=timeout,
-                     extra_env={"GOMAXPROCS": "1", "VERIF_PROPOSAL_TIMEOUT_MS": "3600000"})
+                     extra_env={"GOMAXPROCS": "1", "VERIF_PROPOSAL_TIMEOUT_MS": PROPOSAL_TIMEOUT_MS})
     if rc != 0 or not out.exists():
         where = ""
         pf = d / (out.name + ".progress")
